@@ -1,6 +1,6 @@
 #!/bin/bash
 # detall.sh <seeds> <reps>: determinism self-test of every engine/property: same seeds in <reps> fresh processes
 cd "$(dirname "$0")"
-for p in C20c:plain C11T:vt C09T:vt C15c:race C16c:race C17c:race C02c:race C05c:race C12:race C06:race C01 C02 C03 C04 C05 C06 C07 C08 C09 C10 C11 C12 C13 C14 C15 C16 C17 C18 C20; do
+for p in C20c:plain C20c:race C17T:vt C11T:vt C09T:vt C15c:race C16c:race C17c:race C02c:race C05c:race C12:race C06:race C01 C02 C03 C04 C05 C06 C07 C08 C09 C10 C11 C12 C13 C14 C15 C16 C17 C18 C20; do
   VERIF_DET_REPS=${2:-30} ./check --determinism $p ${1:-60} 2>/dev/null | tail -1
 done
